@@ -279,6 +279,9 @@ def _pareto_obls():
         'a trial whose objective is NaN is never reported', '3 SUCCEEDED trials, trial 1 objective NaN'),
       O('C11.best_trials_multi', 'harness.c11_pareto', 'best_trials_multi', 200, 600,
         'InRamPolicySupporter.GetBestTrials (multi-objective)', '3 trials (feasible / infeasible / ACTIVE), 2 metrics'),
+      O('C11.best_trials_safety', 'harness.c11_pareto', 'best_trials_safety', 150, 600,
+        'GetBestTrials with two safety metrics: a trial violating either one is never reported; both configuration orders',
+        '3 trials, all order types of the objective x sign of the two safety margins'),
       O('C11.best_trials_single', 'harness.c11_pareto', 'best_trials_single', 120, 600,
         'InRamPolicySupporter.GetBestTrials (single objective): all tied top trials', '3 trials'),
   ]
